@@ -40,7 +40,30 @@ def plan_line(fen, go, sm=(), tt="warm", stop_id="", stop_n=0, tag="run", moves=
     return "%s|%s|%s|%s|%s|%s|%d|%s" % (fen, " ".join(moves), go, " ".join(sm), tt, stop_id, stop_n, tag)
 
 
-def run_plan(ck, exe, plan, stem, shards=16, filt="", keep_every=50, timeout=3000, env_extra=None, mate_maxn=None):
+def run_plan(ck, exe, plan, stem, shards=16, filt="", keep_every=50, timeout=3000, env_extra=None, mate_maxn=None, procs=1):
+    """run the plan through search-runs (procs > 1: the plan is dealt round-robin to that many harness processes, each with its own
+    table and evaluator, running concurrently) and validate every logged run with the SearchTrace monitor"""
+    if procs > 1:
+        from concurrent.futures import ThreadPoolExecutor
+        parts = [plan[i::procs] for i in range(procs)]
+        parts = [(i, pl) for i, pl in enumerate(parts) if pl]
+        with ThreadPoolExecutor(max_workers=len(parts)) as ex:
+            res = list(ex.map(lambda ip: exec_plan(ck, exe, ip[1], "%s%d" % (stem, ip[0]), max(1, shards // len(parts)), filt, keep_every, timeout, env_extra), parts))
+        info = dict(runs=sum(r[0]["runs"] for r in res), logged=0, crashes=[c for r in res for c in r[0]["crashes"]])
+        sh = [x for r in res for x in r[1]]
+    else:
+        info, sh = exec_plan(ck, exe, plan, stem, shards, filt, keep_every, timeout, env_extra)
+    env = {}
+    if mate_maxn:
+        env["MATE_MAXN"] = str(mate_maxn)
+    viols, cnt, st = core.validate_shards(sh, module="SearchTrace.tla", cfg="SearchTrace.cfg", timeout=3000, xmx="4g", env_extra=env)
+    ck.add_states(st["generated"], st["distinct"])
+    info["logged"] = sum(1 for p in sh for l in open(p) if '"e":"go"' in l)
+    ck.cov["traces_validated_against_impl"] += info["logged"]
+    return viols, cnt, info, sh
+
+
+def exec_plan(ck, exe, plan, stem, shards, filt, keep_every, timeout, env_extra):
     pf = os.path.join(ck.work, stem + ".plan")
     open(pf, "w").write("\n".join(plan) + "\n")
     base = ["search-runs", "--plan", pf, "--out", ck.work, "--stem", stem, "--shards", shards, "--seed", core.seed(), "--mark", 1]
@@ -70,14 +93,7 @@ def run_plan(ck, exe, plan, stem, shards=16, filt="", keep_every=50, timeout=300
             break
     info = dict(runs=total_runs, logged=logged, crashes=crashes)
     sh = sorted(os.path.join(ck.work, f) for f in os.listdir(ck.work) if f.startswith(stem + ".") and f.endswith(".ndjson"))
-    env = {}
-    if mate_maxn:
-        env["MATE_MAXN"] = str(mate_maxn)
-    viols, cnt, st = core.validate_shards(sh, module="SearchTrace.tla", cfg="SearchTrace.cfg", timeout=3000, xmx="4g", env_extra=env)
-    ck.add_states(st["generated"], st["distinct"])
-    info["logged"] = sum(1 for p in sh for l in open(p) if '"e":"go"' in l)
-    ck.cov["traces_validated_against_impl"] += info["logged"]
-    return viols, cnt, info, sh
+    return info, sh
 
 
 def take_crashes(ck, pid, info, others, covered=True):
@@ -182,6 +198,21 @@ def c05(tier):
         p = rnd.choice(quiet)
         sm = rnd.sample(p["moves"], rnd.randint(1, min(3, len(p["moves"]))))
         plan.append(plan_line(p["fen"], "depth %d" % rnd.randint(1, 3), sm=sm, tt=rnd.choice(["warm", "poison"]), tag="sm"))
+    # late stops: deep searches stopped far inside the tree (below null moves, re-searches, reductions), also with the root restricted
+    # to a castling move - the announced move is spelled from the searcher's own copy of the position, which every abort path must
+    # have restored
+    def castlings(p):
+        f = p["fen"].split()
+        cand = {"K": "e1g1", "Q": "e1c1"} if f[1] == "w" else {"k": "e8g8", "q": "e8c8"}
+        return [m for r, m in cand.items() if r in f[2] and m in p["moves"]]
+    castle = [p for p in pool if castlings(p)]
+    if len(castle) < 3:
+        raise InfraError("position pool without castling positions")
+    for i in range(500 if full else 48):
+        p = rnd.choice(castle if i % 4 else quiet)
+        sm = [rnd.choice(castlings(p))] if (i % 4 and i % 2) else []
+        plan.append(plan_line(p["fen"], "depth %d" % rnd.randint(9, 14), sm=sm, tt=rnd.choice(["fresh", "warm"]), stop_id=rnd.choice(["node", "node", "qnode"]),
+                              stop_n=rnd.randint(1500, 150000), tag="late"))
     # searches from positions WITH a game history (repetition cuts inside the tree, fifty-move clocks): deeper, pv-heavy runs
     hp = os.path.join(ck.work, "histpool.txt")
     core.run_vh(exe, ["pool-hist", "--roots", all_roots(ck), "--n", 600 if full else 60, "--maxply", 24, "--out", hp, "--seed", core.seed() + 3])
@@ -228,7 +259,7 @@ def c06(tier):
     full = tier == "thorough"
     rnd = random.Random(core.seed())
     ck.cov["design"] = design(ck)
-    ck.cov["design_as_written"] = design_as_written(ck, ["lost_stop", "poll_overwrites"])
+    ck.cov["design_as_written"] = design_as_written(ck, ["lost_stop", "poll_overwrites", "running_guard"])
     pool = make_pool(ck, exe, 200 if full else 30, 300 if full else 100)
     busy = [p for p in pool if p["n"] >= 15 and p["src"] != "sparse"] or pool
     others = {}
@@ -265,6 +296,11 @@ def c06(tier):
     for rep in range(20 if full else 4):      # isready only, the search then ends by its depth limit
         p = rnd.choice(busy)
         splan.append("%s|depth 3|%s|%d|isready|threads" % (p["fen"], rnd.choice(["node", "iter_start"]), rnd.choice([1, 3, 20])))
+    # a stale search thread: the first search has answered, its thread is held right behind its bestmove line, the next go is accepted,
+    # the first thread then runs to its end, and only then the stop for the second search arrives (ThreadExit in SearchSession.tla)
+    for rep in range(24 if full else 6):
+        p = rnd.choice(busy)
+        splan.append("%s|infinite|stale_thread|%d|%s|threads" % (p["fen"], rnd.choice([30, 100, 250]), rnd.choice(["depth 1", "depth 2", "movetime 10", "nodes 300"])))
     v2, c2, sh2 = schedules(ck, exe, splan)
     take(ck, "C06", v2, others)
     if c2.get("thread_runs", 0) == 0 or c2.get("isready_runs", 0) == 0 or cnt.get("stop_runs", 0) == 0:
@@ -329,6 +365,38 @@ def c08(tier):
     viols, cnt, info, sh = run_plan(ck, exe, plan, "m", filt="mate", keep_every=400 if full else 150, mate_maxn=3 if full else 2, timeout=6000)
     if cnt.get("mate_claims", 0) == 0 or cnt.get("mate1_roots", 0) == 0:
         raise InfraError("vacuous C08 run: %s" % cnt)
+    # positions NEAR a forced mate (generator: nearmate-pool; the oracle decides every announcement as above)
+    #  refuted:  a capture giving check inside quiescence, one evasion runs into a mate, a quiet evasion holds (roots 0..2 plies earlier)
+    #  zugzwang: sparse endgames where the side to move would mate if it could pass but cannot mate as it is (a committed corpus,
+    #            data/roots_zugzwang.fen, plus freshly generated ones in the thorough tier), searched deep enough for null-move pruning
+    from concurrent.futures import ThreadPoolExecutor
+    gens = 8
+    def gen(i):
+        outp = os.path.join(ck.work, "nearmate%d.txt" % i)
+        core.run_vh(exe, ["nearmate-pool", "--out", outp, "--refuted", (500 if full else 50), "--zugzwang", (12 if full else 0), "--max-tries", 600000,
+                          "--seed", core.seed() * 100 + i], timeout=3000)
+        return [l.rstrip("\n").split("|") for l in open(outp)]
+    with ThreadPoolExecutor(max_workers=gens) as ex:
+        near = [r for part in ex.map(gen, range(gens)) for r in part]
+    plan2 = []
+    for f in near:
+        if f[5].startswith("nm-refuted"):
+            for d in ([1, 2, 3] if full else [1, 2]):
+                plan2.append(plan_line(f[0], "depth %d" % d, tt="fresh" if d == 1 else "warm", tag="near"))
+        else:
+            plan2.append(plan_line(f[0], "depth 11", tt="fresh", tag="zz"))
+    zz = [l.strip() for l in open(os.path.join(DATA, "roots_zugzwang.fen")) if l.strip() and not l.startswith("#")]
+    for fen in zz:
+        plan2.append(plan_line(fen, "depth 11", tt="fresh", tag="zz"))
+    v2, c2, i2, sh2 = run_plan(ck, exe, plan2, "n", filt="mate", keep_every=400, mate_maxn=3 if full else 2, timeout=6000, procs=12)
+    viols += v2
+    for k, v in c2.items():
+        cnt[k] = cnt.get(k, 0) + v
+    info["runs"] += i2["runs"]
+    info["logged"] += i2["logged"]
+    info["crashes"] += i2["crashes"]
+    ck.cov["near_mate_roots"] = dict(refuted=sum(1 for f in near if f[5].startswith("nm-refuted")), zugzwang_generated=sum(1 for f in near if f[5].startswith("nm-zz")),
+                                     zugzwang_corpus=len(zz), runs=i2["runs"])
     others = {}
     dis = [v for v in viols if v.get("kind") == "solver_disagrees_with_specification"]
     if dis:
@@ -392,7 +460,10 @@ def c09(tier):
             plan.append(plan_line(p["fen"], "depth 2", sm=[rnd.choice(p["moves"])], tt="poison", tag="sm"))
     # finite time / clock limits must end on their own
     for go in ["movetime 20", "movetime 1", "wtime 300 btime 300", "wtime 50 btime 50 winc 10 binc 10", "wtime 2000 btime 2000 movestogo 40", "nodes 2000", "nodes 1",
-               "wtime 1 btime 1", "depth 2 movetime 1000"]:
+               "wtime 1 btime 1", "depth 2 movetime 1000",
+               # boundary clocks a GUI really sends: nothing left, already overstepped (negative), for one side or both
+               "wtime 0 btime 0", "wtime -50 btime -50", "wtime -1 btime 300", "wtime 300 btime -1", "wtime -2000 btime -2000 movestogo 5",
+               "wtime -30000 btime -30000 winc 100 binc 100", "wtime 0 btime 0 winc 0 binc 0 movestogo 1"]:
         for rep in range(12 if full else 3):
             p = rnd.choice(pool)
             plan.append(plan_line(p["fen"], go, tt="warm", tag="time"))
